@@ -7,6 +7,7 @@ stdin: JSON list of items
   {"exhaustive": {"alphabet": "abc", "maxlen": n, "shard": k, "of": m}}   -> the property is evaluated here (c20_oracle.check)
          on every pair (i, j) of line lists of length <= n with (i * N + j) % m == k; returns counts, a digest of all
          results and the first failures
+  {"consumer": [[a, b], ...]}  -> unittestDeepEqual(a, b) for each text pair inside one unittest run: {"failures": [...], "diffs": [...]}
   {"includes": true}   -> for every shipped include/*.bare (importlib.resources): parse, validate_script, lint_script
 """
 import hashlib
@@ -92,6 +93,33 @@ def exhaustive(spec):
             'digest': digest.hexdigest()}
 
 
+CONSUMER = '''\
+include <unittest.bare>
+diffs = arrayNew()
+function testIt():
+    for case in cases:
+        unittestDeepEqual(arrayGet(case, 0), arrayGet(case, 1))
+        arrayPush(diffs, diffLines(arrayGet(case, 0), arrayGet(case, 1)))
+    endfor
+endfunction
+unittestRunTest('testIt')
+failures = objectGet(unittestTests, 'testIt')
+'''
+
+
+def consumer(pairs):
+    """unittestDeepEqual (the shipped consumer of diffLines) on text pairs -> its failure entries and the diffLines results"""
+    globals_ = {'cases': [list(p) for p in pairs]}
+    execute_script(parse_script(CONSUMER), {
+        'globals': globals_,
+        'fetchFn': bare_cli._fetch_include,           # pylint: disable=protected-access
+        'systemPrefix': bare_cli._FETCH_INCLUDE_PREFIX,  # pylint: disable=protected-access
+        'logFn': lambda text: None,
+        'maxStatements': 5000000,
+    })
+    return {'failures': globals_.get('failures'), 'diffs': globals_.get('diffs')}
+
+
 def includes():
     out = []
     root = importlib.resources.files('bare_script.include')
@@ -136,6 +164,11 @@ def main():
         if 'exhaustive' in it:
             try:
                 out[i] = exhaustive(it['exhaustive'])
+            except Exception as exc:  # pylint: disable=broad-except
+                out[i] = {'exc': type(exc).__name__, 'msg': str(exc)[:300]}
+        elif 'consumer' in it:
+            try:
+                out[i] = consumer(it['consumer'])
             except Exception as exc:  # pylint: disable=broad-except
                 out[i] = {'exc': type(exc).__name__, 'msg': str(exc)[:300]}
         elif 'includes' in it:
